@@ -278,6 +278,21 @@ class Statement(object):
         raw_post_byte = self.code_pkg.post_byte.int | self.code_pkg.post_byte_choices[1]
         self.code_pkg.post_byte = NumericValue(raw_post_byte)
 
+    def calculate_address_offset(self, expression, statements):
+        """
+        Evaluates an expression that involves the address of a label. An expression
+        that cannot be evaluated (division by zero, result outside 16 bits) is a
+        translation error of this statement.
+
+        :param expression: the address expression to evaluate
+        :param statements: the full set of statements that make up the program
+        :return: the value of the expression
+        """
+        try:
+            return expression.calculate_address_offset(statements)
+        except (ZeroDivisionError, ValueTypeError) as error:
+            raise TranslationError(str(error), self)
+
     def fix_addresses(self, statements, this_index):
         """
         Once all of the statements have been translated, all of the addresses
@@ -311,14 +326,14 @@ class Statement(object):
             return
 
         if self.operand.value.is_address_expression():
-            self.code_pkg.additional = self.operand.value.calculate_address_offset(statements)
+            self.code_pkg.additional = self.calculate_address_offset(self.operand.value, statements)
 
         if self.operand.value.is_address():
             self.code_pkg.additional = statements[self.operand.value.int].code_pkg.address
 
         if self.code_pkg.additional_needs_resolution:
             if self.operand.is_indexed() and self.operand.left and self.operand.left.is_address_expression():
-                relative_address = self.operand.left.calculate_address_offset(statements).int
+                relative_address = self.calculate_address_offset(self.operand.left, statements).int
             else:
                 relative_address = statements[self.code_pkg.additional.int].code_pkg.address.int
 
